@@ -84,6 +84,22 @@ func afterC06(w *World) {
 	w.defaultSettle()
 	w.checkCore()
 	clean = !w.anyConnFault() && w.net.Snapshot().DialTimeouts == 0 && w.net.Snapshot().Refused == 0 && w.net.Snapshot().Resets == 0
+	// lateOnly: every context that ended belongs to an RPC or a send-waiting one-way call and ended after the stub had
+	// returned, i.e. after all its requests had been written - such a cancellation must not disturb anybody
+	lateOnly := true
+	for _, c := range w.calls[1:] {
+		if c.InvokeSeq == 0 || c.CtxEndSeq == 0 {
+			continue
+		}
+		// (a quorum call may return on a quorum while requests to slower nodes are still queued)
+		sync := c.Info.Kind == "rpc" || ((c.Info.Kind == "mcast" || c.Info.Kind == "ucast") && !c.Op.NoSendWait)
+		if !sync || c.ReturnSeq == 0 || c.CtxEndSeq < c.ReturnSeq {
+			lateOnly = false
+		}
+	}
+	if lateOnly {
+		w.probe("all-context-ends-after-return")
+	}
 	for _, c := range w.calls[1:] {
 		if c.InvokeSeq == 0 || c.ReqVal == "" || (c.Info.Kind != "mcast" && c.Info.Kind != "ucast") {
 			continue
@@ -92,15 +108,17 @@ func afterC06(w *World) {
 			continue
 		}
 		for _, si := range c.Targets {
-			// a cancellation of some other call makes the library reset the node's stream, which
-			// loses messages in flight; only judge nodes whose stream was never replaced
+			// a cancellation that strikes while some other call's request is on its way makes
+			// the library reset the node's stream, which loses messages in flight; unless every
+			// context of the run ended only after its call's request had been sent (lateOnly:
+			// then nothing may be reset at all), only judge nodes whose stream was never replaced
 			nstreams := 0
 			for _, st := range w.servers[si].allStreams {
 				if st.Client == w.mgrs[c.Mgr].Name {
 					nstreams++
 				}
 			}
-			if nstreams != 1 {
+			if nstreams != 1 && !lateOnly {
 				continue
 			}
 			// ... and "reachable" means that the one connection the manager ever made to the node
